@@ -152,8 +152,9 @@ def run_scripted_case(case):
         fields = '+'.join(sorted(k for k in exp if exp[k] != obs[k]))
         tag = 'max_iter=0' if max_iter == 0 else ('tol-boundary' if any(o in 'eq' for sc in scripts for o in sc) else 'general')
         out.append(('scripted:%s:%s:%s' % (fields, tag, res), exp, obs, 'linker solve_t disagrees with the reference loop'))
-    if LOG != exp_log and not out:
-        out.append(('scripted:call-order', exp_log[:14], LOG[:14], 'hook/evaluation call order differs'))
+    strip = lambda log: [e[:2] if e[0] == 'eval' else e[:1] for e in log]  # the iteration keyword is not part of the property
+    if strip(LOG) != strip(exp_log) and not out:
+        out.append(('scripted:call-order', strip(exp_log)[:14], strip(LOG)[:14], 'hook/evaluation call order differs'))
     return out
 
 
